@@ -19,6 +19,9 @@ import c06
 SCENARIOS = [
     {"spec": {"n": 2, "integrator": "whfast", "dt": 0.05, "t0": 0.5},
      "segs": [[["step", 1]], [["step", 2]], [["reset_integrator"], ["add", 1e-4, 3.0], ["step", 1]], [["step", 1]]]},
+    # variational equations are added between snapshots: a restart has to allocate and fill var_config again
+    {"spec": {"n": 2, "integrator": "whfast", "dt": 0.05, "t0": 0.0},
+     "segs": [[["step", 1]], [["add_variation"], ["step", 1]], [["step", 1]]]},
     # degenerate snapshots: empty deltas (snapshot byte-identical to snapshot 0: 28-byte blob), a snapshot identical to its predecessor,
     # the first append onto a one-snapshot archive being the smallest possible blob, later crashes behind empty deltas
     {"spec": {"n": 2, "integrator": "whfast", "dt": 0.05, "t0": 0.0},
@@ -72,7 +75,7 @@ def strace_writes(libdir, sc, tmpd):
     out = os.path.join(tmpd, "st.txt")
     r = subprocess.run(["strace", "-f", "-o", out, "-s", "200000", "-xx", "-e",
                         "trace=openat,read,write,lseek,pwrite64,pread64,ftruncate,truncate,close,rename,unlink,mmap", vlib.PY, script],
-                       env=vlib.pyenv(libdir), capture_output=True, text=True, timeout=300)
+                       env=dict(vlib.pyenv(libdir), MALLOC_PERTURB_="85"), capture_output=True, text=True, timeout=300)
     if r.returncode != 0:
         return None, "strace/driver failed: " + r.stderr[-400:]
     sessions = []
@@ -138,7 +141,7 @@ def run(ctx):
 def _run(ctx, libdir, rebound, ft, E, rng, tmpd):
     import warnings
     warnings.simplefilter("ignore")
-    scen = SCENARIOS[:ctx.scale(3, 6)]
+    scen = SCENARIOS[:ctx.scale(4, 7)]
     if ctx.thorough:
         for _ in range(6):
             h = c06.gen_history(rng, small=True)
@@ -234,7 +237,7 @@ def _run(ctx, libdir, rebound, ft, E, rng, tmpd):
                     for seg in sc["segs"][a:]:
                         ops += seg + [["snap"]]
                     resume_jobs.append({"kind": "resume", "file": p, "ops": ops}); resume_meta.append((si, a, k))
-            if si == 1 and a >= 2:
+            if si == 2 and a >= 2:
                 for k in sorted(set([10, wlen // 2, wlen - 2, rng.randrange(wlen)])):
                     p = os.path.join(tmpd, "r1_%d_%d_%d.bin" % (si, a, k))
                     open(p, "wb").write(image(fa, fb, k))
@@ -245,7 +248,7 @@ def _run(ctx, libdir, rebound, ft, E, rng, tmpd):
             p = os.path.join(tmpd, "rr_%d_%d.bin" % (si, k))
             open(p, "wb").write(f0[:k])
             rr_jobs.append({"kind": "rerun", "file": p, "spec": sc["spec"], "segs": sc["segs"]}); rr_meta.append((si, k, len(f0)))
-        if si == 1:
+        if si == 2:
             for k in (len(f0) - 12, len(f0) - 7, len(f0) - 1):
                 p = os.path.join(tmpd, "r1f_%d_%d.bin" % (si, k))
                 open(p, "wb").write(f0[:k])
@@ -275,12 +278,14 @@ def _run(ctx, libdir, rebound, ft, E, rng, tmpd):
                     lib_res.append(r1[0] if isinstance(r1, list) else {"died": r1[0], "stderr": r1[1]})
         res_res = []
         rb = [resume_jobs[i:i + 6] for i in range(0, len(resume_jobs), 6)]
-        for bi, r in enumerate(c06.run_jobs(libdir, rb, timeout=300)):
+        # the reference run was made with MALLOC_PERTURB_=85, the restarted ones use another fill byte: a persisted member the library
+        # never initialises then differs between the uninterrupted and the restarted archive (instead of depending on the allocator's mood)
+        for bi, r in enumerate(c06.run_jobs(libdir, rb, timeout=300, env_extra={"MALLOC_PERTURB_": "170"})):
             if isinstance(r, list):
                 res_res += r
             else:
                 for job in rb[bi]:
-                    r1 = c06.run_jobs(libdir, [[job]], timeout=60)[0]
+                    r1 = c06.run_jobs(libdir, [[job]], timeout=60, env_extra={"MALLOC_PERTURB_": "170"})[0]
                     res_res.append(r1[0] if isinstance(r1, list) else {"died": r1[0], "stderr": r1[1]})
         coq_out = fut_coq.result()
 
